@@ -34,6 +34,7 @@ int main()
     binlog::detail::Queue q(buffer.data(), cap);
     binlog::detail::QueueWriter w(q);
     binlog::detail::QueueReader r(q);
+    bool fresh = false;     // a newly constructed reader that has not polled yet
     std::size_t pending = 0;
     std::uint64_t nextTok = 1;
     bool readOpen = false; (void)readOpen;
@@ -69,8 +70,11 @@ int main()
         }
       }
       else if (c == 'e') { w.endWrite(); pending = 0; seg = "e " + show(); }
+      else if (c == 'n') { r = binlog::detail::QueueReader(q); fresh = true; seg = "n"; }
+      else if (c == 'd' && fresh) { seg = "disabled"; }
       else if (c == 'r')
       {
+        fresh = false;
         const auto rr = r.beginRead();
         seg = "r p1=" + hex(rr.buffer1, rr.size1) + " p2=" + hex(rr.buffer2, rr.size2) + " " + show();
       }
